@@ -101,7 +101,7 @@ fn gen_call(rng: &mut Rng) -> BCall {
 }
 
 pub fn generate(rng: &mut Rng, plan: &mut Plan, _index: u64) {
-    plan.add_program("tool", vec![Op::ReadAll { fd: 0, chunk: 4096 }, Op::Write { fd: 1, stream: 1, len: 10, chunk: 10 }]);
+    plan.add_program("tool", vec![Op::ReadAll { fd: 0, chunk: 4096 }, Op::Write { fd: 1, stream: 1, len: 10, chunk: 10 }, Op::Sleep { ns: 60_000_000_000 }]);
     plan.add_program("sh", vec![Op::Exit { code: 0 }]);
     plan.fs.push(FsEntry { path: "/work/sub".into(), node: Node::Dir { searchable: true } });
     let mut b = BuilderPlan::default();
@@ -142,6 +142,7 @@ struct Model {
     stdout: RKind,
     stderr: RKind,
     has_data: bool,
+    detached: bool,
     /// the model predicts a loud refusal
     refused: Option<String>,
 }
@@ -211,7 +212,8 @@ fn apply(m: &mut Model, c: &BCall, plan: &Plan) {
             set_stream(&mut cur, *k, "stderr", &mut m.refused, false);
             m.stderr = cur;
         }
-        BCall::Detached | BCall::Clone => {}
+        BCall::Detached => m.detached = true,
+        BCall::Clone => {}
     }
 }
 
@@ -274,15 +276,23 @@ fn do_call(e: Exec, c: &BCall) -> Exec {
 }
 
 /// run the terminator; returns Err(panic message) when it panicked
-fn do_term(e: Exec, t: BTerm) -> Result<(), String> {
+fn do_term(e: Exec, t: BTerm, detached: bool, who: &str) -> Result<(), String> {
     match t {
         BTerm::Popen => lib("Exec::popen", || e.popen()).map(|r| {
             if let Ok(mut p) = r {
                 drop(p.stdin.take());
                 drop(p.stdout.take());
                 drop(p.stderr.take());
+                // `detached` is part of the command description: the drop of a live, detached
+                // child must not wait, the drop of any other must
+                let alive = p.pid().map(|pid| sim().k.is_alive(pid as i32)).unwrap_or(false);
+                let w0 = sim().k.wait_log.len();
+                let _ = lib_drop("drop(Popen)", p);
+                let waited = sim().k.wait_log.len() > w0;
+                if alive && waited == detached && sim().poisoned.is_none() {
+                    violate("detached_mismatch", format!("detached_mismatch/{}/model_detached={}", who, detached), format!("{}: the model says detached={}, but dropping the Popen of the still running child {} for it", who, detached, if waited { "waited" } else { "did not wait" }));
+                }
                 kill_all_children();
-                drop(p);
             }
         }),
         BTerm::Join => lib("Exec::join", || e.join()).map(|_| ()),
@@ -350,9 +360,9 @@ pub fn run(plan: &Plan, b: &BuilderPlan) -> FamOut {
     let (mut ex, mut m) = match &b.shell {
         Some(s) => (
             Exec::shell(os(s)),
-            Model { command: b"sh".to_vec(), args: vec![b"-c".to_vec(), s.clone()], env: None, cwd: None, stdin: RKind::None, stdout: RKind::None, stderr: RKind::None, has_data: false, refused: None },
+            Model { command: b"sh".to_vec(), args: vec![b"-c".to_vec(), s.clone()], env: None, cwd: None, stdin: RKind::None, stdout: RKind::None, stderr: RKind::None, has_data: false, detached: false, refused: None },
         ),
-        None => (Exec::cmd("tool"), Model { command: b"tool".to_vec(), args: vec![], env: None, cwd: None, stdin: RKind::None, stdout: RKind::None, stderr: RKind::None, has_data: false, refused: None }),
+        None => (Exec::cmd("tool"), Model { command: b"tool".to_vec(), args: vec![], env: None, cwd: None, stdin: RKind::None, stdout: RKind::None, stderr: RKind::None, has_data: false, detached: false, refused: None }),
     };
     let mut clone: Option<(Exec, Model)> = None;
     let mut alive = true;
@@ -400,7 +410,7 @@ pub fn run(plan: &Plan, b: &BuilderPlan) -> FamOut {
     if alive {
         apply_term(&mut m, b_term);
         let idx = sim().k.n_spawned;
-        let r = do_term(ex, b_term);
+        let r = do_term(ex, b_term, m.detached, "original");
         if sim().poisoned.is_some() {
             return FamOut { nontrivial };
         }
@@ -447,7 +457,7 @@ pub fn run(plan: &Plan, b: &BuilderPlan) -> FamOut {
             apply_term(&mut cm, t);
             let idx = sim().k.n_spawned;
             let both_merged = cm.stdout == RKind::Merge && cm.stderr == RKind::Merge;
-            match (do_term(cex, t), &cm.refused) {
+            match (do_term(cex, t, cm.detached, "clone"), &cm.refused) {
                 (Ok(()), None) if both_merged => {}
                 (Ok(()), None) => judge_exec(plan, &cm, idx, "clone"),
                 (Err(pm), None) => violate("panic_model_mismatch", "panic_model_mismatch/refused/clone_term".into(), format!("clone: terminator panicked ({})", pm)),
